@@ -112,7 +112,26 @@ def _dump_case(seed):
                 gene = "g%d_%d" % (call, rng.randint(0, 1))
                 models.append(gi_mod.TranscriptModel("chr1", rng.choice("+-"), "t%d_%d" % (call, m), gene, ex,
                                                      gi_mod.TranscriptModelType.novel_not_in_catalog))
-            ginfo = gi_mod.GeneInfo.from_models(models, 0) if rng.random() < .5 else gi_mod.GeneInfo.from_region("chr1", 1, 2000)
+            r = rng.random()
+            if r < .35:
+                ginfo = gi_mod.GeneInfo.from_models(models, 0)
+            elif r < .7:
+                # an annotation whose genes are SHORTER than some of the models printed under them (novel models overhang the gene)
+                ref = [gi_mod.TranscriptModel("chr1", m_.strand, "ref_" + m_.transcript_id, m_.gene_id,
+                                              list(m_.exon_blocks[rng.randint(0, len(m_.exon_blocks) - 1):][:rng.randint(1, 3)]),
+                                              gi_mod.TranscriptModelType.known) for m_ in models if rng.random() < .7]
+                ginfo = gi_mod.GeneInfo.from_models(ref, 0) if ref else gi_mod.GeneInfo.from_region("chr1", 1, 2000)
+                if ref:
+                    # the gene records of the annotation (what a gffutils database supplies): id, start, end of each annotated gene
+                    import types
+                    spans = {}
+                    for r_ in ref:
+                        a_, b_ = spans.get(r_.gene_id, (r_.get_start(), r_.get_end()))
+                        spans[r_.gene_id] = (min(a_, r_.get_start()), max(b_, r_.get_end()))
+                    ginfo.gene_db_list = [types.SimpleNamespace(id=g_, start=a_, end=b_, seqid="chr1") for g_, (a_, b_) in sorted(spans.items())]
+                    ginfo.gene_regions = {}
+            else:
+                ginfo = gi_mod.GeneInfo.from_region("chr1", 1, 2000)
             pr.dump(ginfo, models)
             models_all += models
         pr.out_gff.flush()
@@ -145,6 +164,8 @@ def _dump_case(seed):
             g = genes.get(m.gene_id)
             if g is None:
                 problems.append("gene %s missing" % m.gene_id)
+            elif not (g[1] <= t[1] and t[2] <= g[2]):
+                problems.append("gene record %s spans %d-%d but its transcript %s spans %d-%d" % (m.gene_id, g[1], g[2], m.transcript_id, t[1], t[2]))
         ids = {}
         for t, exs in exons.items():
             strand = transcripts[t][3] if t in transcripts else "."
@@ -167,7 +188,7 @@ def replay_dump(d):
 
 
 @bounded("C03.gff_dump", ["C03", "C17"], note="the real GFFPrinter.dump on random model sets (1-2 dump calls, 1-4 models of 1-4 exons, "
-         "two genes per call): every transcript once and spanning exactly its exons with its strand and gene, every gene once, exon "
+         "two genes per call, with an annotation that covers the models, one whose genes are shorter than the models, or none): every transcript once and spanning exactly its exons with its strand and gene, every gene once and spanning all its transcripts, exon "
          "records equal to the model, exon_id functional and injective; parsed back from the written GTF")
 def c03_dump(tier, rng):
     n = 150 if tier == "quick" else 6000
@@ -288,3 +309,73 @@ def c03_joiner(tier, rng):
                 "obligation": "C03.gene_joiner", "inputs": {"seed": base + k}, "observed": p[:3],
                 "required": "reference transcripts keep their reference gene", "replay_call": "contracts.c_models:replay_joiner"}]}
     return {"cases": n, "bound": "%d random loci" % n, "violations": [], "samples": [{"seed": base}]}
+
+
+# ---- GFFPrinter.dump: the gene record spans every transcript printed under it (and the annotated gene) -------------------------------------
+import ast as _ast
+import copy as _copy
+
+
+class _NamedTupleToTuple(_ast.NodeTransformer):
+    FIELDS = {"chr_id": 0, "strand": 1, "gene_region": 2}
+
+    def visit_Call(self, node):
+        self.generic_visit(node)
+        if isinstance(node.func, _ast.Name) and node.func.id == "GFFGeneInfo" and len(node.args) == 3 and not node.keywords:
+            return _ast.Tuple(elts=list(node.args), ctx=_ast.Load())
+        return node
+
+    def visit_Attribute(self, node):
+        self.generic_visit(node)
+        if isinstance(node.value, _ast.Name) and node.value.id == "gene_record" and node.attr in self.FIELDS:
+            return _ast.Subscript(value=node.value, slice=_ast.Constant(value=self.FIELDS[node.attr]), ctx=node.ctx)
+        return node
+
+
+def _dump_regions_extract(fdef):
+    """GFFPrinter.dump: the loop that accumulates gene_info_dict (gene id -> chromosome, strand, gene region), returning that dict.
+    `gene_regions` (gene_info.get_gene_regions(), or {} for an empty gene_info) becomes a parameter; the namedtuple GFFGeneInfo(chr_id,
+    strand, gene_region) is read as the plain tuple it is (fields by position); drops the early return on an empty storage, the sorting
+    and all writing after the loop"""
+    loop = next((n for n in fdef.body if isinstance(n, _ast.For) and _ast.unparse(n.iter) == "enumerate(transcript_model_storage)"), None)
+    if loop is None:
+        raise front.Missing("gene region loop of GFFPrinter.dump not found")
+    pre = [n for n in fdef.body if isinstance(n, _ast.Assign) and _ast.unparse(n.targets[0]) in ("gene_to_model_dict", "gene_info_dict")
+           and n.lineno < loop.lineno]
+    if len(pre) != 2:
+        raise front.Missing("initialisation of gene_to_model_dict / gene_info_dict not found")
+    body = [_copy.deepcopy(n) for n in pre] + [_NamedTupleToTuple().visit(_copy.deepcopy(loop)),
+                                                _ast.Return(value=_ast.Name(id="gene_info_dict", ctx=_ast.Load()))]
+    args = _ast.arguments(posonlyargs=[], args=[_ast.arg(arg=a) for a in ("self", "gene_info", "transcript_model_storage", "gene_regions")],
+                          kwonlyargs=[], kw_defaults=[], defaults=[])
+    return _ast.fix_missing_locations(_ast.FunctionDef(name="dump", args=args, body=body, decorator_list=[], lineno=loop.lineno, col_offset=0))
+
+
+record("TModelD", {"chr_id": "str", "strand": "str", "transcript_id": "str", "gene_id": "str", "exon_blocks": IVS})
+record("GeneInfoD", {"chr_id": "str"})
+_GREC = "tuple[str,str,tuple[int,int]]"
+_VALID = ("(all((%(e)s[i][0] < %(e)s[j][0]) or (%(e)s[i][0] == %(e)s[j][0] and %(e)s[i][1] <= %(e)s[j][1]) "
+          "for i in range(len(%(e)s)) for j in range(i + 1, len(%(e)s))) and all(0 < %(e)s[i][0] <= %(e)s[i][1] for i in range(len(%(e)s))))")
+_S = "transcript_model_storage"
+contract("src/transcript_printer.py:GFFPrinter.dump#gene_regions",
+         {"self": None, "gene_info": "rec:GeneInfoD", _S: "list[rec:TModelD]", "gene_regions": "dict[str,tuple[int,int]]"},
+         returns="dict[str,%s]" % _GREC, props=["C03"], extract=_dump_regions_extract, native=False,
+         locals={"gene_info_dict": "dict[str,%s]" % _GREC, "gene_to_model_dict": "defaultdict[str,list[int],'new']"},
+         requires=["all(len(m.exon_blocks) >= 1 and m.chr_id == gene_info.chr_id for m in %s)" % _S,
+                   "all(gene_regions[g][0] <= gene_regions[g][1] for g in gene_regions)"],
+         ensures=[
+             # every model that passes the printer's filter has a gene record, and that record spans the transcript record printed for it
+             "all(not %s or (%s[k].gene_id in result and result[%s[k].gene_id][2][0] <= %s[k].exon_blocks[0][0] and "
+             "%s[k].exon_blocks[len(%s[k].exon_blocks) - 1][1] <= result[%s[k].gene_id][2][1]) for k in range(len(%s)))"
+             % ((_VALID % {"e": "%s[k].exon_blocks" % _S},) + (_S,) * 7),
+             # a gene of the annotation keeps (at least) its annotated span
+             "all(g not in gene_regions or (result[g][2][0] <= gene_regions[g][0] and gene_regions[g][1] <= result[g][2][1]) for g in result)",
+             "all(result[g][2][0] <= result[g][2][1] for g in result)"],
+         loops={0: {"inv": [
+             "all(not %s or (%s[k].gene_id in gene_info_dict and gene_info_dict[%s[k].gene_id][2][0] <= %s[k].exon_blocks[0][0] and "
+             "%s[k].exon_blocks[len(%s[k].exon_blocks) - 1][1] <= gene_info_dict[%s[k].gene_id][2][1]) for k in range(_k0))"
+             % ((_VALID % {"e": "%s[k].exon_blocks" % _S},) + (_S,) * 6),
+             "all(g not in gene_regions or (gene_info_dict[g][2][0] <= gene_regions[g][0] and gene_regions[g][1] <= gene_info_dict[g][2][1]) for g in gene_info_dict)",
+             "all(gene_info_dict[g][2][0] <= gene_info_dict[g][2][1] for g in gene_info_dict)",
+             "all(gene_info_dict[g][0] == gene_info.chr_id for g in gene_info_dict)"]}},
+         canary="len(result) == 0")
